@@ -321,3 +321,92 @@ def run(ctx) -> None:  # noqa: F811
              "right")
     c10._check_scatter(ctx, modules={"abtem.bloch.dynamical"}, iters={"ndindex": 1}, floors=(1, 1), direct=True)
     _inner_run_c26b(ctx)
+
+
+# ---- added after the seeded change C26-r3seed0: the expm path applies M S M^-1, rows by M and columns by 1/M
+_inner_run_c26c = run
+
+
+def run(ctx) -> None:  # noqa: F811
+    import ast as _ast
+
+    from ..cfg import DataFlow as _DF
+    from ..model import call_name as _cn, norm_text as _nt, walk_no_nested as _walk
+
+    ctx.rule("R-SIMILARITY", "calculate_scattering_matrix returns M·expm(…)·M⁻¹ with M = diag(calculate_M_matrix(…)): "
+             "written as matrix products the left factor is diag(Mii) and the right factor diag(1/Mii); written with "
+             "broadcasting, rows are scaled by Mii (Mii[:, None]) and columns by 1/Mii (Mii[None, :]) — "
+             "(M S M⁻¹)_ij = M_i S_ij / M_j.  The transposed scaling is M⁻¹ S M: identical for ZOLZ-only beams "
+             "(M == 1) and wrong, against the eigen-decomposition path, as soon as a beam has g_z != 0")
+    repo = ctx.repo
+    f = repo.function(MOD, "calculate_scattering_matrix")
+    df = _DF(f.node)
+    rets = [r for r in _walk(f.node) if isinstance(r, _ast.Return) and r.value is not None]
+    ctx.require(len(rets) == 1 and isinstance(rets[0].value, _ast.Name), f"{f.qualname}: expected `return <S>`")
+    d = df.single_def(df.cfg.node_of(rets[0]).idx, rets[0].value.id)
+    ctx.require(d is not None and d.value is not None, f"{f.qualname}: the returned matrix has no single definition")
+    e, at = d.value, d.node
+    mcalls = [c for c in _walk(f.node) if isinstance(c, _ast.Call) and _cn(c) == "calculate_M_matrix"]
+    ctx.require(len(mcalls) == 1, f"{f.qualname}: calculate_M_matrix call not found")
+
+    def derives_from_M(x: _ast.AST, node: int) -> bool:
+        sl = df.backward_slice(node, x)
+        return any(any(y is mcalls[0] for y in _ast.walk(df.cfg.nodes[n_].ast)) for n_ in sl.def_nodes
+                   if df.cfg.nodes[n_].ast is not None) or any(y is mcalls[0] for y in _ast.walk(x))
+
+    def is_inverse(x: _ast.AST, node: int, depth=0) -> bool:
+        """does the factor hold 1/Mii (a reciprocal of the M entries)?"""
+        if depth > 6:
+            return False
+        if isinstance(x, _ast.Name):
+            dd = df.single_def(node, x.id)
+            return dd is not None and dd.value is not None and is_inverse(dd.value, dd.node, depth + 1)
+        if isinstance(x, _ast.Call) and x.args:
+            return is_inverse(x.args[0], node, depth + 1)
+        if isinstance(x, _ast.BinOp) and isinstance(x.op, _ast.Div):
+            return derives_from_M(x.right, node) and not derives_from_M(x.left, node)
+        if isinstance(x, _ast.BinOp) and isinstance(x.op, _ast.Pow):
+            return isinstance(x.right, _ast.UnaryOp) and derives_from_M(x.left, node)
+        if isinstance(x, _ast.Subscript):
+            return is_inverse(x.value, node, depth + 1)
+        return False
+
+    verdict, shown = None, _nt(e)[:80]
+    # (1) matrix products: flatten dot(A, dot(B, C)) / A @ B @ C
+    def flatten(x):
+        if isinstance(x, _ast.Call) and (_cn(x) or "").split(".")[-1] in ("dot", "matmul") and len(x.args) == 2:
+            return flatten(x.args[0]) + flatten(x.args[1])
+        if isinstance(x, _ast.BinOp) and isinstance(x.op, _ast.MatMult):
+            return flatten(x.left) + flatten(x.right)
+        return [x]
+    ops = flatten(e)
+    if len(ops) == 3:
+        left, right = ops[0], ops[2]
+        lm, rm = derives_from_M(left, at), derives_from_M(right, at)
+        verdict = lm and rm and not is_inverse(left, at) and is_inverse(right, at)
+    else:
+        # (2) broadcasting: collect the factors that derive from M with their orientation and power
+        rows, cols = 0, 0
+        def walk_scale(x, power):
+            nonlocal rows, cols
+            if isinstance(x, _ast.BinOp) and isinstance(x.op, (_ast.Mult, _ast.Div)):
+                walk_scale(x.left, power)
+                walk_scale(x.right, power if isinstance(x.op, _ast.Mult) else -power)
+                return
+            if isinstance(x, _ast.Subscript) and derives_from_M(x, at):
+                idx = x.slice.elts if isinstance(x.slice, _ast.Tuple) else [x.slice]
+                kinds = ["none" if (isinstance(i_, _ast.Constant) and i_.value is None) else "full" for i_ in idx]
+                p_ = -power if is_inverse(x.value, at) else power
+                if kinds == ["full", "none"]:
+                    rows += p_
+                elif kinds == ["none", "full"]:
+                    cols += p_
+        walk_scale(e, 1)
+        if rows or cols:
+            verdict = rows == 1 and cols == -1
+    ctx.require(verdict is not None, f"{f.qualname}: cannot read `{shown}` as M·S·M⁻¹ (matrix products or row/column "
+                                     "broadcasting)")
+    ctx.check(verdict, "R-SIMILARITY", f"{f.qualname}:M S M^-1", f.loc(e), f"`{shown}` scales rows by M and columns by 1/M",
+              f"`{shown}` is not M·S·M⁻¹: rows must be scaled by M_i and columns by 1/M_j; the transposed scaling gives "
+              "M⁻¹·S·M, which differs from the eigen-decomposition path for beams with g_z != 0", key_detail="similarity")
+    _inner_run_c26c(ctx)
